@@ -67,24 +67,65 @@ theorem nothing_lost_or_duplicated (cfg : Cfg α) (name : Bytes) (ic : Bool) (op
     payloads (runWrapped cfg name ic ops).log = written cfg ops :=
   payloads_runWrapped cfg name ic ops
 
+/-- a response of one of the two legal shapes decodes to the payloads that were handed on -/
+theorem clientBody_of_shape (cfg : Cfg α) (name : Bytes) (st : St α) (hsh : Shape cfg name st) :
+    clientBody (some name) st = some (payloads st.log) := by
+  cases hsh with
+  | identity h => simp [clientBody, h]
+  | encoded rest s sc h0 hlog henc hsent _ _ =>
+    have hnp : plainOnly st.log = false := by
+      rw [hlog]; simp [plainOnly, Ev.plainOk]
+    have hce : sentCE st = [name] := by
+      simp [sentCE, hsent, initHdr_CE]
+    unfold clientBody
+    rw [hnp, hlog]
+    simp [henc, hce, payloads]
+
 /-- **transparency** of the response writer: for ALL scripts, a client that decodes according to the
     Content-Encoding it received obtains exactly what the handler wrote. -/
 theorem transparent_wrapped (cfg : Cfg α) (name : Bytes) (ic : Bool) (ops : List (Op α))
     (h101 : No101 ops) :
     clientBody (some name) (runWrapped cfg name ic ops) = some (written cfg ops) := by
-  have hp := payloads_runWrapped cfg name ic ops
-  cases final_shape cfg name ic ops h101 with
-  | identity h => simp [clientBody, h, hp]
-  | encoded rest s sc h0 hlog henc hsent _ _ =>
-    have hnp : plainOnly (runWrapped cfg name ic ops).log = false := by
-      rw [hlog]; simp [plainOnly, Ev.plainOk]
-    have hce : sentCE (runWrapped cfg name ic ops) = [name] := by
-      simp [sentCE, hsent, initHdr_CE]
-    rw [hlog] at hp
-    simp only [payloads] at hp
-    unfold clientBody
-    rw [hnp, hlog]
-    simp [henc, hce, hp]
+  rw [clientBody_of_shape cfg name _ (final_shape cfg name ic ops h101), payloads_runWrapped]
+
+/-- **transparency without any hypothesis on the script**, with net/http's body rule as an explicit outcome:
+    for EVERY script (101 Switching Protocols included), every configuration, HEAD or not — the client of a real
+    server obtains nothing when the request is HEAD or the final status forbids a body (1xx/101, 204, 304:
+    net/http refuses the handler's writes with or without this handler), and otherwise exactly the bytes the
+    handler wrote. -/
+theorem transparent_total (cfg : Cfg α) (name : Bytes) (ic head : Bool) (ops : List (Op α)) :
+    delivered head (some name) (runWrapped cfg name ic ops) =
+      some (if head || noBodyStatus (runWrapped cfg name ic ops) then [] else written cfg ops) := by
+  unfold delivered
+  by_cases hc : (head || noBodyStatus (runWrapped cfg name ic ops)) = true
+  · simp [hc]
+  · rw [if_neg hc, if_neg hc]
+    rcases inv_or_101_run ops (St.init name ic) (inv_init cfg name ic) with hinv | h101
+    · have hsh : Shape cfg name (runWrapped cfg name ic ops) := shape_rwClose hinv
+      rw [clientBody_of_shape cfg name _ hsh, payloads_runWrapped]
+    · exfalso
+      obtain ⟨hh, e⟩ := final101_rwClose cfg _ h101
+      apply hc
+      have : noBodyStatus (runWrapped cfg name ic ops) = true := by
+        unfold noBodyStatus
+        have e' : (runWrapped cfg name ic ops).sent = some (101, hh) := e
+        rw [e']; rfl
+      simp [this]
+
+/-- a handler that answers `101 Switching Protocols` before anything else is committed has fixed the response:
+    101 is what the client is told, whatever the handler writes afterwards — the body clauses do not apply -/
+theorem switching_protocols_is_final (cfg : Cfg α) (name : Bytes) (ic : Bool) (pre rest : List (Op α))
+    (hpre : ∀ op ∈ pre, Preliminary op) :
+    ∃ h, (runWrapped cfg name ic (pre ++ Op.writeHeader 101 :: rest)).sent = some (101, h) := by
+  have hno : No101 pre := by
+    intro op hop e
+    rcases hpre op hop with ⟨k, v, rfl⟩ | ⟨k, v, rfl⟩ | ⟨k, rfl⟩ | ⟨i, rfl, _, h2⟩ <;> simp at e
+    exact h2 e
+  have hinv := inv_run pre _ hno (inv_init cfg name ic)
+  have hun := uncommitted_run cfg pre (St.init name ic) hpre ⟨rfl, rfl, rfl⟩
+  unfold runWrapped run
+  rw [List.foldl_append, List.foldl_cons]
+  exact final101_rwClose cfg _ (final101_run cfg rest _ (uncommitted_101 hinv hun.1))
 
 /-- **transparency**, whole handler: whatever `ServeHTTP` negotiates for whatever request. -/
 theorem transparent (cfg : Cfg α) (offered prefer : List Bytes) (req : Req) (ops : List (Op α))
@@ -617,6 +658,15 @@ example : chooseEncoding [vGzip, vZstd] [vGzip] ⟨false, [103, 122, 105, 112, 5
 example : chooseEncoding [vGzip] [vGzip] ⟨false, [71, 90, 73, 80, 32, 59, 9, 81, 61, 48, 46, 48, 48, 48, 32, 44, 42, 59, 113, 61, 49], false, [], []⟩ = none := by decide
 example : chooseEncoding [vGzip, vZstd] [vGzip] ⟨false, [103, 122, 105, 112, 59, 113, 61, 48, 44, 32, 42, 44, 122, 115, 116, 100], false, [], []⟩ = some vZstd := by decide
 example : chooseEncoding [vGzip, vZstd] [] ⟨false, [105, 100, 101, 110, 116, 105, 116, 121, 59, 113, 61, 48, 44, 32, 42, 59, 113, 61, 48], false, [], []⟩ = none := by decide
+
+-- `transparent_total`: the three outcomes occur — HEAD delivers nothing, a 204 delivers nothing, a 101 with a
+-- "body" delivers nothing (and is final), a 200 delivers the bytes
+example : delivered true (some vZstd) (runWrapped exCfg vZstd false exOps) = some [] ∧
+    delivered false (some vZstd) (runWrapped exCfg vZstd false exOps) = some [600, 10, 100, 50] ∧
+    delivered false (some vZstd) (runWrapped exCfg vZstd false [.writeHeader 204, .write 600]) = some [] ∧
+    delivered false (some vZstd) (runWrapped exCfg vZstd false [.hset kCT exTextHtml, .writeHeader 101, .write 600]) = some [] ∧
+    (runWrapped exCfg vZstd false [.hset kCT exTextHtml, .writeHeader 101, .write 600]).sent.map (·.1) = some 101 := by
+  decide
 
 -- `status_preserved`: its hypotheses are met by exOps' shape (pre = 4 ops, s = 200, body = 4 ops)
 example : ∀ op ∈ ([.hset kCT exTextHtml, .writeHeader 103] : List (Op Nat)), Preliminary op := by
